@@ -6,7 +6,7 @@ FM = 'checks.fam_mpc:'
 
 def obligations(tier, seed=0):
     obs = []
-    for n, rnd in ((3, 'n'), (20, 'f'), (21, 'n')):
+    for n, rnd in ((3, 'n'), (21, 'n')):
         obs.append((FM + 'nthroot_bits', dict(n=n, prec=8, rnd=rnd)))
     if tier == 'thorough':
         for n in (2, 3, 5, 20, 21):
